@@ -47,6 +47,20 @@ def run(ctx):
     c04.check_model(ctx, [r for r in keep if r["ok"] and r["gen"] == "g4"])
     import c03
     c03.check_model(ctx, [r for r in keep if r["ok"] and r["gen"].startswith("g3") and not c02.in_model_class(r["case"])])
+    # one activity per executed update, for EVERY input: the shape of the real spacetime tree is balanced (C16.one_activity_per_update)
+    okr = [r for r in keep if r["ok"]]
+    for r, a in zip(okr, common.lean_batch([{"op": "activity_balance", "tree": r["tree"]} for r in okr])):
+        if "error" in a:
+            raise common.InternalError("lean: " + a["error"])
+        n = len(r["yaml"]["einsum"]["expressions"])
+        good = a["balanced"] and a["update_statements"] >= n and a["activity_statements"] >= n
+        ctx.ob(good); ctx.stat("activity_balance_checked")
+        if not good:
+            failing = [ex for ex in r["execs"] if ex.get("ok") and ex.get("activities") != ex.get("updates")]
+            ctx.violation(dict(kind="activity-balance", yaml=r["yaml"], yaml_text=specs.dump_yaml(r["yaml"]), text=r["text"], lean=a,
+                               obligation="C16.one_activity_per_update: the emitted tree is balanced (every loop body and path reports as many activities as it performs updates)",
+                               reason="the spacetime program is not balanced: bal=%r, %d update / %d addActivity statements" % (a["bal"], a["update_statements"], a["activity_statements"])),
+                          bool(failing))
     for r in keep:
         if not r["ok"]:
             continue
